@@ -297,6 +297,12 @@ def get_double(value: FloatArgType, xsd_version: str | None = None) -> float:
                 return math.nan  # for NaN use the predefined instance to keep identity
         elif value.lower() in INVALID_NUMERIC:
             raise ValueError(f'invalid value {value!r} for xs:double/xs:float')
+    elif isinstance(value, int):
+        try:
+            return float(value)
+        except OverflowError:
+            # an integer beyond the range of xs:double is converted to an infinite value
+            return math.inf if value > 0 else -math.inf
     elif math.isnan(value):
         return math.nan
 
